@@ -784,7 +784,7 @@ def correspondence(ctx):
         hists.append(play_fixed(ctx, k, case))
         k += 1
     ncorp = len(hists)
-    for _ in range(ctx.budget(420, 5000)):
+    for _ in range(ctx.budget(420, 3000)):
         hists.append(play_history(ctx, k, stats, ctx.rng.choice([3, 6, 10, 14])))
         k += 1
     lines = [l for h in hists for (l, _) in h]
@@ -1212,9 +1212,9 @@ def oracle(ctx, broken, hints):
     e, fs = extra_fixed_checks(ctx)
     evals += e
     failures += fs
-    n = ctx.budget(60, 1200)
+    n = ctx.budget(60, 500)
     if broken:
-        n = ctx.budget(600, 6000)
+        n = ctx.budget(600, 4000)
     for _ in range(n):
         if len(failures) >= 8:
             break
